@@ -34,8 +34,12 @@ fn mkobj(w: &World, cfg: &Cfg) -> Obj {
 fn finish(w: &Arc<World>, objs: &[&Obj], pool: usize) {
     rt::quiesce();
     if pool == 0 {
-        for o in objs {
-            w.sync(o, "kick", Body::plain());
+        // with no pool threads queued work is carried by callers (twice: work scheduled from inside
+        // a job that the first kick ran lands behind that kick)
+        for round in 0..2 {
+            for o in objs {
+                w.sync(o, &format!("kick{}", round), Body::plain());
+            }
         }
     }
     w.check_quiet();
